@@ -222,6 +222,12 @@ def run_case(ctx, idx):
         data = {str(f): nan_scalar(rng, n) for f in set(names)}
         if rng.random() < 0.4:
             data["fl1_max"] = rng.integers(0, 5000, n)
+        if rng.random() < 0.25:
+            # a recording whose stored low-precision "time" column is superseded by the one
+            # computed from "frame" and the frame rate (the stored column stays in the file)
+            data["frame"] = 1000 + np.cumsum(rng.integers(1, 9, n)).astype(float)
+            data["time"] = (50 + np.sort(rng.random(n)) * 5).astype(np.float32)
+            ctx.count("inputs_with_superseded_time_column")
         meta = gd.complete_meta(rng, data, n)
         meta["experiment"]["time"] = "10:00:00"
         p0 = tmp / "f0.rtdc"
@@ -254,7 +260,7 @@ def run_case(ctx, idx):
             query_all(ctx, ds, "written", hist)
         for step in range(int(rng.integers(0, 4))):
             op = str(rng.choice(["join", "compress", "repack", "condense", "export", "basin",
-                                 "hierarchy", "superset"]))
+                                 "hierarchy", "superset", "export_named"]))
             out = tmp / f"s{step}.rtdc"
             try:
                 if op == "join":
@@ -302,6 +308,20 @@ def run_case(ctx, idx):
                         hw.store_basin(basin_name="superset", basin_type="file",
                                        basin_format="hdf5", basin_locs=[cur],
                                        basin_map=bmap.astype(np.uint64), verify=False)
+                elif op == "export_named":
+                    # export of an explicit feature list (every scalar feature the dataset
+                    # offers without further input), unfiltered or with a filter that lets
+                    # everything pass
+                    import dclab.definitions as dfn
+                    with dclab.new_dataset(cur) as ds:
+                        feats = sorted(set(ds.features_innate)
+                                       | {f for f in ("time", "volume", "aspect", "tilt")
+                                          if f in ds})
+                        feats = [f for f in feats if dfn.scalar_feature_exists(f)]
+                        allpass = bool(rng.random() < 0.5)
+                        if allpass:
+                            ds.apply_filter()
+                        ds.export.hdf5(out, features=feats, filtered=allpass)
                 elif op in ("export", "basin"):
                     with dclab.new_dataset(cur) as ds:
                         m = rng.random(len(ds)) < 0.7
